@@ -402,9 +402,9 @@ def replay(case):
         elif f["kind"] == "missing_required":
             o.pop(f["key"], None)
         elif f["kind"] == "repeated_item":
-            o[f["key"]][f["occurrence"]] = eval(f["value"], {"__builtins__": {}}, {})
+            o[f["key"]][f["occurrence"]] = eval(f["value"], {"__builtins__": {}}, {"inf": float("inf"), "nan": float("nan")})
         elif f["kind"] == "member_not_object":
-            o[f["key"]][f["index"]] = eval(f["value"], {"__builtins__": {}}, {})
+            o[f["key"]][f["index"]] = eval(f["value"], {"__builtins__": {}}, {"inf": float("inf"), "nan": float("nan")})
         else:
-            o[f["key"]] = eval(f["value"], {"__builtins__": {}}, {})
+            o[f["key"]] = eval(f["value"], {"__builtins__": {}}, {"inf": float("inf"), "nan": float("nan")})
     return check(d, case["root"], case.get("faults", []), case)
